@@ -157,6 +157,11 @@ pub fn jobs(tier: Tier) -> Vec<Job> {
                     if !interesting {
                         continue;
                     }
+                    // quick: blocks of three on one rule set per fee setting (the legacy price on the
+                    // pre-London one only where it is the only expressible one)
+                    if tier == Tier::Quick && seq.len() == 3 && f == Fee::Legacy10 && spec == SpecId::BERLIN {
+                        continue;
+                    }
                     let name = format!("c07:{role:?}:{f:?}");
                     let Some(mut case) = build_case(&name, spec, &db, &templates, &seq) else { continue };
                     case.env.beneficiary = beneficiary_of(role);
